@@ -214,8 +214,10 @@ Theorem NoBIOSACMOverlap_order_refuted :
     no_acm_overlap dsz_total [acm; ibb] = pass /\ no_acm_overlap dsz_real [acm; ibb] = pass.
 Proof.
   exists (2, 4293984256, 4096, 256), (7, 4293918720, 65536, 256).
-  repeat split; try (vm_compute; reflexivity).
-  exists 4293984256. cbn. lia.
+  split; [reflexivity|]. split; [reflexivity|]. split; [|split].
+  - exists 4293984256. unfold fa, fs. lia.
+  - vm_compute. reflexivity.
+  - vm_compute. reflexivity.
 Qed.
 
 (** BIOSACMIsBelow4G on the real code: a verdict only for FITs without ACM. *)
@@ -237,15 +239,19 @@ Theorem BIOSACMIsBelow4G_total_exact : forall l,
 Proof.
   intros l. unfold acm_below_4g. induction l as [|e tl IH]; intros Hok.
   - cbn. split; [intros _ e []|reflexivity].
-  - cbn [acm_above_4g]. destruct (ft e =? T_SACM) eqn:Ee.
+  - assert (IH' := IH (fun x Hx => Hok x (or_intror Hx))). clear IH.
+    cbn [acm_above_4g]. destruct (ft e =? T_SACM) eqn:Ee.
     + unfold dsz_total at 1. cbn [bind]. unfold end64.
       destruct (Hok e (or_introl eq_refl)) as (A & S & W). rewrite wrap64_small by lia.
       destruct (fa e + fs e * 16 >? FOUR_GIB) eqn:Eg.
-      * cbn. split; [discriminate|]. intros H. specialize (H e (or_introl eq_refl)). apply Z.eqb_eq in Ee. specialize (H Ee). lia.
-      * rewrite IH by (intros; apply Hok; right; assumption).
-        split; intros H x [<-|Hx] Tx; auto. lia.
-    + rewrite IH by (intros; apply Hok; right; assumption).
-      split; intros H x Hx Tx; [destruct Hx as [<-|Hx]; [lia|auto]|apply H; [right; assumption|assumption]].
+      * cbn [verd_of_found]. unfold pass, fail. split; [discriminate|]. intros H.
+        apply Z.eqb_eq in Ee. specialize (H e (or_introl eq_refl) Ee). lia.
+      * rewrite IH'. split.
+        -- intros H x [<-|Hx] Tx; [lia|auto].
+        -- intros H x Hx Tx. apply H; [right; assumption|assumption].
+    + rewrite IH'. split.
+      * intros H x [<-|Hx] Tx; [lia|auto].
+      * intros H x Hx Tx. apply H; [right; assumption|assumption].
 Qed.
 
 (** IBBCovers*: exact against interval containment, for ALL tables whose
@@ -304,7 +310,7 @@ Lemma covers_fail_iff lo hi l : 0 <= lo < W32 -> (forall e, In e l -> fent_typed
   verd_of_covers (covers dsz_real lo hi l) = fail <-> covers dsz_real lo hi l <> Ok true.
 Proof.
   intros Hlo Hty. destruct (covers_exact lo hi l Hlo Hty) as [_ [b Hb]]. rewrite Hb.
-  destruct b; cbn; split; congruence.
+  destruct b; unfold verd_of_covers, pass, fail; split; congruence.
 Qed.
 
 (** IBBCoversFIT: exact as long as the table ends below 4 GiB (which HasFIT
@@ -449,5 +455,285 @@ Qed.
 Theorem ValidSMRR_sandy_never_passes : forall pbm pmm tb raw,
   valid_smrr pbm pmm tb (tseg_limit false raw) <> pass.
 Proof.
-  intros. unfold tseg_limit, valid_smrr, pass, fail. brk; try discriminate. lia.
+  intros. unfold tseg_limit, valid_smrr, pass, fail. brk; discriminate.
+Qed.
+
+(** * 1b. FIT: completeness of the overlap scan, presence checks, FIT pointer/table bounds *)
+
+Section FITComplete.
+Variable dsz : fent -> outcome Z.
+Variable t2 : Z.
+Hypothesis dsz_ok : forall e, ft e = T_IBB \/ ft e = t2 -> dsz e = Ok (fs e * 16).
+
+Lemma inner_complete h tl : ft h = T_IBB ->
+  (forall e, In e tl -> ft e = t2 -> overlap_test dsz h e = Ok false) ->
+  inner dsz t2 h tl = Ok false.
+Proof.
+  intros Th. induction tl as [|x tl IH]; intros H; cbn [inner]; [reflexivity|].
+  destruct (ft x =? t2) eqn:Ex.
+  - apply Z.eqb_eq in Ex. rewrite (H x (or_introl eq_refl) Ex). cbn [bind].
+    apply IH. intros e He. apply H. right. exact He.
+  - apply IH. intros e He. apply H. right. exact He.
+Qed.
+
+Lemma pairs_complete l :
+  (forall l1 e1 l2 e2 l3, l = l1 ++ e1 :: l2 ++ e2 :: l3 ->
+     ft e1 = T_IBB -> ft e2 = t2 -> overlap_test dsz e1 e2 = Ok false) ->
+  pairs_check dsz t2 l = Ok false.
+Proof.
+  induction l as [|h tl IH]; intros H; cbn [pairs_check]; [reflexivity|].
+  assert (Htl : pairs_check dsz t2 tl = Ok false).
+  { apply IH. intros l1 e1 l2 e2 l3 E. apply (H (h :: l1) e1 l2 e2 l3). cbn [app]. rewrite E. reflexivity. }
+  destruct (ft h =? T_IBB) eqn:Eh; [|exact Htl].
+  apply Z.eqb_eq in Eh. rewrite (inner_complete h tl Eh).
+  - cbn [bind]. exact Htl.
+  - intros e He Te. destruct (in_split _ _ He) as (l2 & l3 & ->).
+    apply (H [] h l2 e l3); [reflexivity|assumption|assumption].
+Qed.
+
+Lemma overlap_test_complete e1 e2 :
+  ft e1 = T_IBB -> ft e2 = t2 -> ibb_iv_ok e1 -> ibb_iv_ok e2 ->
+  0 < fs e1 -> 0 < fs e2 ->
+  fa e1 <> fa e2 + fs e2 * 16 -> fa e2 <> fa e1 + fs e1 * 16 ->
+  ~ overlapZ (fa e1) (fs e1 * 16) (fa e2) (fs e2 * 16) ->
+  overlap_test dsz e1 e2 = Ok false.
+Proof.
+  intros T1 T2 (A1 & S1 & W1) (A2 & S2 & W2) P1 P2 N1 N2 H.
+  unfold overlap_test. rewrite (dsz_ok e2), (dsz_ok e1) by auto.
+  cbn [bind]. unfold end64. rewrite !wrap64_small by lia. f_equal.
+  destruct (fa e1 >? fa e2 + fs e2 * 16) eqn:Ea; [reflexivity|].
+  destruct (fa e2 >? fa e1 + fs e1 * 16) eqn:Eb; [reflexivity|].
+  exfalso. apply H. unfold overlapZ.
+  destruct (Z_le_gt_dec (fa e1) (fa e2)).
+  - exists (fa e2). lia.
+  - exists (fa e1). lia.
+Qed.
+End FITComplete.
+
+(** two entries neither empty nor touching: there the closed-interval test of
+    the code and the half-open reading of a range coincide *)
+Definition apart (e1 e2 : fent) : Prop :=
+  0 < fs e1 /\ 0 < fs e2 /\ fa e1 <> fa e2 + fs e2 * 16 /\ fa e2 <> fa e1 + fs e1 * 16.
+
+Lemma dsz_real_ibb : forall e, ft e = T_IBB \/ ft e = T_IBB -> dsz_real e = Ok (fs e * 16).
+Proof. intros e [He|He]; unfold dsz_real; rewrite He; reflexivity. Qed.
+
+Lemma pairs_real_ibb_total l : exists b, pairs_check dsz_real T_IBB l = Ok b.
+Proof.
+  induction l as [|h tl [b IH]]; cbn [pairs_check]; [eauto|].
+  destruct (ft h =? T_IBB) eqn:Eh; [|eauto].
+  apply Z.eqb_eq in Eh. destruct (inner_ok dsz_real T_IBB dsz_real_ibb h tl Eh) as [c Hc].
+  rewrite Hc. cbn [bind]. destruct c; eauto.
+Qed.
+
+Theorem NoIBBOverlap_total : forall l,
+  no_ibb_overlap dsz_real l = pass \/ no_ibb_overlap dsz_real l = fail.
+Proof.
+  intros l. unfold no_ibb_overlap. destruct (pairs_real_ibb_total l) as [[|] ->]; cbn; auto.
+Qed.
+
+(** exact on every table without 64-bit wrap whose BIOS startup modules are
+    pairwise [apart] (not empty, not merely touching) *)
+Theorem NoIBBOverlap_exact_partial : forall l, all_iv_ok l ->
+  (forall l1 e1 l2 e2 l3, l = l1 ++ e1 :: l2 ++ e2 :: l3 -> ft e1 = T_IBB -> ft e2 = T_IBB -> apart e1 e2) ->
+  (no_ibb_overlap dsz_real l = pass <->
+   forall l1 e1 l2 e2 l3, l = l1 ++ e1 :: l2 ++ e2 :: l3 -> ft e1 = T_IBB -> ft e2 = T_IBB ->
+     ~ overlapZ (fa e1) (fs e1 * 16) (fa e2) (fs e2 * 16)).
+Proof.
+  intros l Hok Hap. split.
+  - intros H. exact (NoIBBOverlap_sound_partial l Hok H).
+  - intros H. unfold no_ibb_overlap.
+    rewrite (pairs_complete dsz_real T_IBB l); [reflexivity|].
+    intros l1 e1 l2 e2 l3 E T1 T2.
+    destruct (Hap l1 e1 l2 e2 l3 E T1 T2) as (P1 & P2 & N1 & N2).
+    apply (overlap_test_complete dsz_real T_IBB dsz_real_ibb); try assumption.
+    + apply Hok. subst l. apply in_or_app. right. left. reflexivity.
+    + apply Hok. subst l. apply in_or_app. right. right. apply in_or_app. right. left. reflexivity.
+    + exact (H l1 e1 l2 e2 l3 E T1 T2).
+Qed.
+
+(** the healthy FIT (an IBB, then a disjoint ACM below 4 GiB) gets no verdict at all *)
+Theorem NoBIOSACMOverlap_healthy_refuted :
+  exists ibb acm, ft ibb = T_IBB /\ ft acm = T_SACM /\
+    ~ overlapZ (fa ibb) (fs ibb * 16) (fa acm) (fs acm * 16) /\
+    no_acm_overlap dsz_real [ibb; acm] = VPanic /\ acm_below_4g dsz_real [ibb; acm] = VPanic.
+Proof.
+  exists (7, 4293918720, 65536, 256), (2, 4292870144, 4096, 256).
+  split; [reflexivity|]. split; [reflexivity|]. split; [|split].
+  - intros (x & H1 & H2). unfold fa, fs in *. lia.
+  - vm_compute. reflexivity.
+  - vm_compute. reflexivity.
+Qed.
+
+Theorem HasType_exact : forall t l,
+  has_type t l = pass <-> exists e, In e l /\ ft e = t.
+Proof.
+  intros t l. unfold has_type, count_type.
+  induction l as [|e tl IH]; cbn [filter length].
+  - cbn. unfold pass, fail. split; [discriminate|intros (e & [] & _)].
+  - destruct (ft e =? t) eqn:Ee.
+    + cbn [length]. replace (0 <? Z.of_nat (S (length (filter (fun e0 => ft e0 =? t) tl)))) with true by lia.
+      split; [|reflexivity]. intros _. exists e. split; [left; reflexivity|lia].
+    + rewrite IH. split.
+      * intros (x & Hx & Tx). exists x. split; [right; assumption|assumption].
+      * intros (x & [<-|Hx] & Tx); [lia|]. exists x. auto.
+Qed.
+
+Theorem HasBIOSPolicy_exact : forall mode l,
+  has_bios_policy mode l = pass <-> mode = 0 \/ count_type T_BIOSPOLICY l = 1.
+Proof. intros. unfold has_bios_policy, pass, fail. brk; split; intros; try discriminate; try reflexivity; lia. Qed.
+
+Theorem FITVectorIsSet_exact : forall p,
+  fit_vector_is_set p = pass <-> exists v, p = Some v /\ VALID_FIT_RANGE <= v < FIT_VECTOR.
+Proof.
+  intros [v|]; unfold fit_vector_is_set, pass, fail, ierr.
+  - destruct (v <? VALID_FIT_RANGE) eqn:E1; [|destruct (v >=? FIT_VECTOR) eqn:E2].
+    + split; [discriminate|]. intros (w & E & Hw). injection E as E. lia.
+    + split; [discriminate|]. intros (w & E & Hw). injection E as E. lia.
+    + split; [|reflexivity]. intros _. exists v. split; [reflexivity|lia].
+  - split; [discriminate|]. intros (v & E & _). discriminate E.
+Qed.
+
+Theorem HasFIT_exact : forall fitptr n rd1 rd2, 0 <= fitptr -> 0 <= n ->
+  (has_fit fitptr n rd1 rd2 = pass <->
+   rd1 = true /\ rd2 = true /\ 0 < n /\ fitptr + n * 16 <= FIT_VECTOR).
+Proof.
+  intros p n rd1 rd2 Hp Hn. unfold has_fit, pass, fail, ierr, FOUR_GIB, FIT_VECTOR.
+  destruct rd1, rd2; cbn [negb]; brk; split; intros; try discriminate; try reflexivity; try lia.
+Qed.
+
+Theorem PolicyAllowsTXT_exact : forall rd l,
+  policy_allows_txt rd l = pass <->
+  (forall e, In e l -> ft e <> T_TXTPOLICY) \/
+  (exists l1 e l2 b, l = l1 ++ e :: l2 /\ (forall x, In x l1 -> ft x <> T_TXTPOLICY) /\
+     ft e = T_TXTPOLICY /\ fv e = 1 /\ rd = Some b /\ Z.odd b = true).
+Proof.
+  intros rd l. induction l as [|e tl IH]; cbn [policy_allows_txt].
+  - split; [intros _; left; intros e []|reflexivity].
+  - destruct (ft e =? T_TXTPOLICY) eqn:Ee.
+    + apply Z.eqb_eq in Ee. split.
+      * intros H. right. exists [], e, tl.
+        destruct (fv e =? 0) eqn:E0; [unfold pass, ierr in H; discriminate|].
+        destruct (fv e =? 1) eqn:E1; [|unfold pass, fail in H; discriminate].
+        destruct rd as [b|]; [|unfold pass, ierr in H; discriminate].
+        exists b. unfold pass in H. injection H as H.
+        repeat split; try assumption; try reflexivity; try lia. intros x [].
+      * intros [H|(l1 & x & l2 & b & E & Hl1 & Tx & Vx & -> & Hb)].
+        -- exfalso. apply (H e); [left; reflexivity|assumption].
+        -- destruct l1 as [|y l1]; cbn [app] in E; injection E as -> ->.
+           ++ replace (fv x =? 0) with false by lia. replace (fv x =? 1) with true by lia.
+              rewrite Hb. reflexivity.
+           ++ exfalso. apply (Hl1 y); [left; reflexivity|assumption].
+    + rewrite IH. split.
+      * intros [H|(l1 & x & l2 & b & -> & Hl1 & Tx & Vx & -> & Hb)].
+        -- left. intros y [<-|Hy]; [lia|auto].
+        -- right. exists (e :: l1), x, l2, b. repeat split; try assumption; try reflexivity.
+           intros y [<-|Hy]; [lia|auto].
+      * intros [H|(l1 & x & l2 & b & E & Hl1 & Tx & Vx & -> & Hb)].
+        -- left. intros y Hy. apply H. right. assumption.
+        -- destruct l1 as [|y l1]; cbn [app] in E; injection E as -> ->; [lia|].
+           right. exists l1, x, l2, b. repeat split; try assumption; try reflexivity.
+           intros z Hz. apply Hl1. right. assumption.
+Qed.
+
+(** * 2b. ValidSMRR against the interval reading of the SMRR pair *)
+
+Lemma land_lowmask x k : 0 <= k -> Z.land x (2 ^ k - 1) = x mod 2 ^ k.
+Proof.
+  intros. replace (2 ^ k - 1) with (Z.ones k) by (rewrite Z.ones_equiv; lia).
+  apply Z.land_ones. assumption.
+Qed.
+
+Lemma himask_shape k : 0 <= k <= 32 -> W32 - 2 ^ k = Z.shiftl (Z.ones (32 - k)) k.
+Proof.
+  intros. rewrite Z.shiftl_mul_pow2 by lia. rewrite Z.ones_equiv.
+  replace (Z.pred (2 ^ (32 - k))) with (2 ^ (32 - k) - 1) by lia.
+  rewrite Z.mul_sub_distr_r. rewrite <- Z.pow_add_r by lia.
+  replace (32 - k + k) with 32 by lia. unfold W32. lia.
+Qed.
+
+Lemma testbit_above32 x n : 0 <= x < W32 -> 32 <= n -> Z.testbit x n = false.
+Proof.
+  intros Hx Hn. destruct (Z.eq_dec x 0) as [->|Hne]; [apply Z.bits_0|].
+  apply Z.bits_above_log2; [lia|].
+  assert (Z.log2 x < 32); [|lia].
+  apply Z.log2_lt_pow2; [lia|]. unfold W32 in Hx. lia.
+Qed.
+
+Lemma land_himask x k : 0 <= k <= 32 -> 0 <= x < W32 ->
+  Z.land x (W32 - 2 ^ k) = x - x mod 2 ^ k.
+Proof.
+  intros Hk Hx.
+  assert (P : 0 < 2 ^ k) by (apply Z.pow_pos_nonneg; lia).
+  transitivity (Z.shiftl (Z.shiftr x k) k).
+  - rewrite himask_shape by assumption.
+    apply Z.bits_inj'. intros n Hn. rewrite Z.land_spec.
+    destruct (Z_lt_le_dec n k) as [L|L].
+    + rewrite !Z.shiftl_spec_low by assumption. apply Bool.andb_false_r.
+    + rewrite !Z.shiftl_spec by assumption. rewrite Z.shiftr_spec by lia.
+      replace (n - k + k) with n by lia.
+      destruct (Z_lt_le_dec n 32) as [L2|L2].
+      * rewrite Z.ones_spec_low by lia. apply Bool.andb_true_r.
+      * rewrite Z.ones_spec_high by lia. rewrite (testbit_above32 x n) by assumption. reflexivity.
+  - rewrite Z.shiftr_div_pow2, Z.shiftl_mul_pow2 by lia.
+    pose proof (Z.div_mod x (2 ^ k) ltac:(lia)). lia.
+Qed.
+
+Lemma mod_pred_of_multiple t g : 0 < g -> 0 < t -> t mod g = 0 -> (t - 1) mod g = g - 1.
+Proof.
+  intros Hg Ht Hm.
+  assert (E : t = g * (t / g)) by (pose proof (Z.div_mod t g ltac:(lia)); lia).
+  assert (Q : 0 < t / g) by nia.
+  symmetry. apply (Z.mod_unique _ _ (t / g - 1)); [lia|]. lia.
+Qed.
+
+(** SMRR with a contiguous mask of granularity [2^k] describes the interval
+    [[PB, PB + 2^k)]; TSEG is [[tb, tl)].  A pass says exactly: the SMRR base is
+    non-zero and aligned, and TSEG IS that interval. *)
+Theorem ValidSMRR_interval_partial : forall pbm pmm tb tl k,
+  12 <= k < 32 -> u32 tb -> u32 tl ->
+  let PB := bits pbm 12 1048575 * 4096 in
+  bits pmm 12 1048575 * 4096 = W32 - 2 ^ k ->     (* contiguous mask *)
+  (valid_smrr pbm pmm tb tl = pass <->
+   PB <> 0 /\ PB mod 2 ^ k = 0 /\ tb = PB /\ tl = PB + 2 ^ k /\ tl <> U32MAX).
+Proof.
+  intros pbm pmm tb tl k Hk Htb Htl PB Hm.
+  pose proof (bits_ones_range pbm 12 20 ltac:(lia)) as R1. change (Z.ones 20) with 1048575 in R1.
+  pose proof (bits_ones_range pmm 12 20 ltac:(lia)) as R2. change (Z.ones 20) with 1048575 in R2.
+  change (2 ^ 20) with 1048576 in R1, R2.
+  assert (P : 0 < 2 ^ k) by (apply Z.pow_pos_nonneg; lia).
+  assert (P12 : 4096 <= 2 ^ k) by (change 4096 with (2 ^ 12); apply Z.pow_le_mono_r; lia).
+  assert (P32 : 2 ^ k < W32) by (unfold W32; change 4294967296 with (2 ^ 32); apply Z.pow_lt_mono_r; lia).
+  unfold valid_smrr. fold PB.
+  set (pm := bits pmm 12 1048575) in *. set (pb := bits pbm 12 1048575) in *.
+  unfold u32 in *.
+  rewrite (wrap32_small (pm * 4096)) by (unfold W32; lia).
+  rewrite (wrap32_small PB) by (unfold W32, PB; lia).
+  rewrite Hm. replace (U32MAX - (W32 - 2 ^ k)) with (2 ^ k - 1) by (unfold U32MAX, W32; lia).
+  rewrite !land_lowmask by lia.
+  assert (Hpm : (pm =? 0) = false) by (unfold W32 in *; lia). rewrite Hpm.
+  destruct (pb =? 0) eqn:Epb.
+  { unfold pass, fail. split; [discriminate|]. intros (H & _). exfalso. apply H. unfold PB. lia. }
+  destruct ((tb =? 0) || (tb =? U32MAX)) eqn:Etb.
+  { unfold pass, fail. split; [discriminate|]. intros (H0 & H1 & H2 & H3 & H4). exfalso.
+    assert (tb = U32MAX) by (unfold PB in *; lia). subst tb.
+    rewrite <- H2 in H1. unfold U32MAX in H1.
+    assert (D : (2 ^ k | 4294967295)) by (apply Z.mod_divide; lia).
+    assert (D2 : (4096 | 2 ^ k)) by (exists (2 ^ (k - 12)); change 4096 with (2 ^ 12); rewrite <- Z.pow_add_r by lia; f_equal; lia).
+    pose proof (Z.divide_trans _ _ _ D2 D) as D3. destruct D3 as [q Hq]. lia. }
+  destruct ((tl =? 0) || (tl =? U32MAX)) eqn:Etl.
+  { unfold pass, fail. split; [discriminate|]. intros (H0 & H1 & H2 & H3 & H4). exfalso. unfold PB in *. lia. }
+  destruct (tb mod 2 ^ k =? 0) eqn:Eal; cbn [negb].
+  2:{ unfold pass, fail. split; [discriminate|]. intros (H0 & H1 & H2 & H3 & H4). exfalso. subst tb. lia. }
+  destruct (tb =? PB) eqn:Eb; cbn [negb].
+  2:{ unfold pass, fail. split; [discriminate|]. intros (H0 & H1 & H2 & H3 & H4). exfalso. lia. }
+  destruct (tl mod 2 ^ k =? 0) eqn:Etlal; cbn [negb].
+  2:{ unfold pass, fail. split; [discriminate|]. intros (H0 & H1 & H2 & H3 & H4). exfalso.
+      subst tl. rewrite Z.add_mod, H1, Z.mod_same in Etlal by lia. cbn in Etlal. rewrite Z.mod_0_l in Etlal by lia. lia. }
+  rewrite (wrap32_small (tl - 1)) by (unfold W32 in *; lia).
+  rewrite land_himask by (unfold W32 in *; lia).
+  rewrite (mod_pred_of_multiple tl (2 ^ k)) by lia.
+  destruct (tl - 1 - (2 ^ k - 1) =? PB) eqn:Eend; cbn [negb]; unfold pass, fail.
+  - split; [|reflexivity]. intros _. unfold PB in *. repeat split; lia.
+  - split; [discriminate|]. intros (H0 & H1 & H2 & H3 & H4). lia.
 Qed.
